@@ -85,7 +85,7 @@ def run(ctx):
             c = mgh.pair_case(gx, gy, res, True)
             return [c] if (c["raised"] or not c["halfint"] or c["lb2"] > triv) else []
         return mk
-    for t in range((5000 if quick else 40000) * boost):
+    for t in range((4000 if quick else 40000) * boost):
         nx, ny = rng.randint(4, 8), rng.randint(4, 8)
         sty = rng.choice(["tree", "sparse", "star", "path", "lollipop"])
         gx, gy = (nx, mgh.rand_connected(rng, nx, sty)), (ny, mgh.rand_connected(rng, ny, rng.choice(["tree", "sparse", "star", "path"])))
@@ -93,6 +93,24 @@ def run(ctx):
         it["mk"] = focused(gx, gy)
         items.append(it)
     mgh.validate(ctx, items, "V-focused (lb above the trivial bound)%s" % (" x4 after divergence" if boost > 1 else ""), "C05")
+    # isomorphic pairs at sizes beyond the exact oracle: a sparse graph against a relabelled copy of itself.  The relabelling is the
+    # certificate (TLC verifies it is an isometry), the true distance is 0, so any positive lower bound is a violation.  Thousands are run
+    # through the code; TLC sees every pair with a positive lower bound plus a sample of the rest.
+    items = []
+    def iso_filter(gx, gy, iso, keep):
+        def mk(res):
+            c = mgh.pair_case(gx, gy, res, False, iso=iso, algo=False)
+            return [c] if (keep or c["raised"] or not c["halfint"] or c["lb2"] > 0) else []
+        return mk
+    for t in range(4500 if quick else 40000):
+        n = rng.randint(9, 14)
+        gx = (n, mgh.rand_connected(rng, n, rng.choice(["tree", "tree", "sparse", "lollipop", "star"])))
+        E2, p = mgh.relabel(rng, n, gx[1])
+        gy = (n, E2)
+        it = mgh.mk_pair_item(gx, gy, mgh.CANON, mgh.CANON, seed=rng.randrange(1000), order=[0, 0], exact=False, owner="C05", iso=p)
+        it["mk"] = iso_filter(gx, gy, p, t % 60 == 0)
+        items.append(it)
+    mgh.validate(ctx, items, "V-isomorphic (9..14 vertices, relabelling verified by TLC)", "C05")
     # larger graphs: counter-certificates only
     items = []
     nL, lo, hi = (40, 10, 16) if quick else (300, 10, 40)
